@@ -837,7 +837,7 @@ func checkObj(c ObjCase, r *kit.R) {
 		}
 		t2 := t
 		t2.SignatureAlgorithm = 0
-		for _, variant := range []string{"bare", "own-name certificate", "issuer-name certificate"} {
+		for _, variant := range []string{"bare", "own-name certificate", "issuer-name certificate", "issuer look-alike certificate"} {
 			t3 := t2
 			if variant != "bare" {
 				tmpl := &x509.Certificate{SerialNumber: big.NewInt(99), Subject: pkix.Name{CommonName: "responder of nobody"}, NotBefore: pki.Epoch.Add(-time.Hour), NotAfter: pki.Epoch.Add(48 * time.Hour),
@@ -845,12 +845,21 @@ func checkObj(c ObjCase, r *kit.R) {
 				if variant == "issuer-name certificate" {
 					tmpl.RawSubject = ca.RawSubject
 				}
+				if variant == "issuer look-alike certificate" {
+					// the issuer's own certificate in everything but the key
+					tmpl.RawSubject = ca.RawSubject
+					tmpl.SerialNumber = new(big.Int).Set(ca.SerialNumber)
+					tmpl.SubjectKeyId, tmpl.AuthorityKeyId = ca.SubjectKeyId, ca.AuthorityKeyId
+					tmpl.NotBefore, tmpl.NotAfter = ca.NotBefore, ca.NotAfter
+					tmpl.KeyUsage, tmpl.ExtKeyUsage = ca.KeyUsage, ca.ExtKeyUsage
+					tmpl.BasicConstraintsValid, tmpl.IsCA, tmpl.MaxPathLen, tmpl.MaxPathLenZero = ca.BasicConstraintsValid, ca.IsCA, ca.MaxPathLen, ca.MaxPathLenZero
+				}
 				cd, cerr := x509.CreateCertificate(rand.Reader, tmpl, tmpl, other.ZPub, other.ZPriv)
 				if cerr != nil {
 					r.Failf("C03:harness:impostor", "cannot build the foreign responder certificate: %v", cerr)
 				}
 				fc, perr := x509.ParseCertificate(cd)
-				if perr != nil || (variant == "issuer-name certificate" && !bytes.Equal(fc.RawSubject, ca.RawSubject)) {
+				if perr != nil || (variant != "own-name certificate" && !bytes.Equal(fc.RawSubject, ca.RawSubject)) {
 					r.Failf("C03:harness:impostor", "foreign responder certificate: %v", perr)
 				}
 				t3.Certificate = fc
